@@ -45,9 +45,18 @@ type RefV struct {
 	T  *types.Named
 }
 
+// SliceV: a slice with a concrete capacity of modelled elements; its length is Len (nil = len(Elems)).
 type SliceV struct {
 	Elems []Value
 	ElemT types.Type
+	Len   *Term
+}
+
+func (s *SliceV) length() *Term {
+	if s.Len != nil {
+		return s.Len
+	}
+	return mkInt(int64(len(s.Elems)))
 }
 
 type MapV struct {
@@ -156,6 +165,8 @@ func mergeValues(c *Term, a, b Value) Value {
 		switch y := b.(type) {
 		case NilV:
 			return a
+		case *SliceV:
+			return &SliceV{ElemT: y.ElemT, Elems: y.Elems, Len: mkIte(c, mkInt(0), y.length())}
 		case *StructV:
 			return &StructV{T: y.T, Nil: mkIte(c, tTrue, y.Nil), F: y.F}
 		case *ListV:
@@ -177,14 +188,28 @@ func mergeValues(c *Term, a, b Value) Value {
 			if x == y {
 				return x
 			}
-			if len(x.Elems) == len(y.Elems) {
-				r := &SliceV{ElemT: x.ElemT, Elems: make([]Value, len(x.Elems))}
-				for i := range x.Elems {
-					r.Elems[i] = mergeValues(c, x.Elems[i], y.Elems[i])
-				}
-				return r
+			n := len(x.Elems)
+			if len(y.Elems) > n {
+				n = len(y.Elems)
 			}
-			unsup("merge of slices of different length")
+			r := &SliceV{ElemT: x.ElemT, Elems: make([]Value, n)}
+			for i := 0; i < n; i++ {
+				switch {
+				case i < len(x.Elems) && i < len(y.Elems):
+					r.Elems[i] = mergeValues(c, x.Elems[i], y.Elems[i])
+				case i < len(x.Elems):
+					r.Elems[i] = x.Elems[i]
+				default:
+					r.Elems[i] = y.Elems[i]
+				}
+			}
+			if x.Len != nil || y.Len != nil || len(x.Elems) != len(y.Elems) {
+				r.Len = mkIte(c, x.length(), y.length())
+			}
+			return r
+		}
+		if _, ok := b.(NilV); ok {
+			return &SliceV{ElemT: x.ElemT, Elems: x.Elems, Len: mkIte(c, x.length(), mkInt(0))}
 		}
 	case *ListV:
 		if y, ok := b.(*ListV); ok {
